@@ -7,7 +7,8 @@ assembled independently of pastel).
 -/
 import Pastel.Model.Cli
 import Pastel.Generated.NamedTable
-import Pastel.Props.C12
+import Pastel.Lemmas.MinBy
+import Pastel.RealInst
 
 namespace Pastel.C18
 open Pastel
@@ -50,11 +51,11 @@ theorem nearestName_minimal {α : Type} [ScT α] (c : Color α) :
   simp only []
   split
   · next e he =>
-    have := C12.minByKey_spec _ _ e he
+    have := MinBy.minByKey_spec _ _ e he
     exact ⟨e, this.1, rfl, this.2⟩
   · next hnone =>
     exfalso
-    have := C12.minByKey_none _ _ hnone
+    have := MinBy.minByKey_none _ _ hnone
     have hl : cssNamed.length = 148 := table_size
     rw [this] at hl; simp at hl
 
